@@ -176,7 +176,7 @@ def run(ctx):
     if r.violated is None:
         raise common.MachineryError("Finder model insensitive to the istart design")
     jobs = []
-    n = 1 if quick else 8
+    n = 1 if quick else 40
     for k, kind in enumerate(KINDS):
         for i in range(n if kind != "many" else max(1, n // 2)):
             jobs.append((ctx.seed * 1009 + k * 101 + i, kind, ctx.workdir, (i == 0)))
